@@ -6,7 +6,7 @@ HOOKS = {
   'add_only': True,
 }
 ENGINES = [
-  {'name': 'vx', 'path': '/verif/vx', 'serves_properties': ['C07', 'C12'],
+  {'name': 'vx', 'path': '/verif/vx', 'serves_properties': ['C04', 'C06', 'C07', 'C12', 'C15', 'C18'],
    'kind_free_text': 'Verus 0.2026.09.13 on functions extracted mechanically from /repo on every run (byte-for-byte item text + listed rewrites), contracts spliced from units/<unit>/contracts.vrs'},
   {'name': 'kx', 'path': '/verif/kx', 'serves_properties': ['C14'],
    'kind_free_text': 'Kani 0.68 / CBMC 6.11 harness crates calling the real crates in /repo through path dependencies; loop-free full-domain harnesses are complete proofs, #[kani::unwind] harnesses are labelled bounded'},
@@ -19,10 +19,45 @@ NOT_APPLICABLE = {
   'C08': 'liveness over whole scheduling histories (fairness, deadlock iff nothing runnable): needs a protocol-level inductive invariant over fiber_queue, every waiter list and every fiber; contracts decide one call; Kani cannot construct a Vm',
   'C19': 'a property of Vm::repl / Vm::compile state across prompt entries; those functions call parser, resolver and compiler and can be neither extracted for Verus nor driven by Kani',
 }
-for _p in ['C01', 'C03', 'C04', 'C05', 'C06', 'C09', 'C10', 'C11', 'C13', 'C15', 'C16', 'C17', 'C18', 'C20']:
+for _p in ['C01', 'C03', 'C05', 'C09', 'C10', 'C11', 'C13', 'C16', 'C17', 'C20']:
   NOT_APPLICABLE.setdefault(_p, 'planned (DESIGN.md section 4) but no check is registered yet in this commit; not claimed until its obligations are discharged on the unchanged tree')
 
 CHECKS = {
+  'C06': dict(
+    engine='vx',
+    technique='Verus contracts on the real SymbolicByteCode::len/stack_effect, compute_label_offsets, apply_stack_effects, ByteCodeEncoder::encode and helpers against ISA spec tables',
+    design_ref='DESIGN.md §4 C06',
+    level_text=('Unbounded deductive proofs on the real compiler back half: len() and every encoder arm emit exactly enc_len(instr) bytes (table written from the VM decode side); '
+                'compute_label_offsets stores the exact prefix byte offset of every label; encode writes for every jump/loop/handler the exact distance to that offset (so jumps land on instruction boundaries, lemma_jump_lands_on_boundary) and returns Ok only when every distance fits u16; '
+                'stack_effect() equals the interpreter effect table; apply_stack_effects computes exactly the linear simulation, rewrites only handler depth operands, and max_slots covers every simulated depth. '
+                'The property-level obligations that the linear simulation equals the live depth on every CFG path are stated separately and FAIL: known findings D1/D2/D4.'),
+    level_note=('Trusted: Verus/Z3/vstd, stubs A-enc (to_ne_bytes, transmute leaves, cache id emitter) in bytecode/prelude.rs, A-shape (labels dense/unique, jump direction), A-mem, rewrites R1,R3,R5,R6,R7,R10,R11,R13,R13z. '
+                'Not decided: index ranges of constants/locals/captures/cache slots (Compiler), Fiber stack reservation (raw pointers), eff table vs handlers beyond the ops unit.'),
+  ),
+  'C15': dict(
+    engine='vx',
+    technique='Verus panic-freedom and termination obligations (index bounds, overflow, debug_assert!, decreases) on the real peephole pass, label resolution and encoder',
+    design_ref='DESIGN.md §4 C15',
+    level_text=('Only the compiler back half is decided: for every instruction vector, peephole_optimize and each rewrite, label_count, compute_label_offsets and ByteCodeEncoder::encode terminate and cannot index out of bounds, overflow or trip a debug_assert! (under the stated shape preconditions). '
+                'apply_stack_effects is total only under the residual precondition; without it the obligation fails: known finding D4 (debug build panics). D7 (u8 drop counter overflow) was found here and fixed.'),
+    level_note=('Scanner, parser, resolver and Compiler totality and the REPL are NOT decided (unbounded AST, arena tables, unsafe parent pointers: outside both tools). Trusted as for C06/C12.'),
+  ),
+  'C18': dict(
+    engine='vx',
+    technique='Verus contracts along the line-attribution chain: LineOffsets::offset_line, ByteCodeEncoder::encode (one line per byte), peephole lines lock-step, Chunk::get_line',
+    design_ref='DESIGN.md §4 C18',
+    level_text=('Unbounded proofs that offset_line returns the last line start <= offset (binary_search under its std contract), that encode writes the instruction\'s line once per encoded byte, '
+                'that the peephole pass keeps each emitted line attached to the window it came from, and that get_line(off) is lines[off] (last entry at off == len). Only this chain is decided.'),
+    level_note=('Not decided: traceback/backtrace assembly from frames and saved ips, exit-status mapping, exit(n), Compiler::emit_byte. Trusted: wrapper contract for binary_search (A-std), Array->Vec substitution in Chunk (R6).'),
+  ),
+  'C04': dict(
+    engine='vx',
+    technique='Verus contracts on handler depth (apply_stack_effects) and handler jump encoding (PushHandler/CheckHandler arms of encode); property-level depth obligation kept as a listed finding',
+    design_ref='DESIGN.md §4 C04',
+    level_text=('Decided part: every PushHandler records exactly the linear-simulation depth at its try and its catch offset is the exact byte offset of the catch label (width 5), CheckHandler likewise (width 3). '
+                'The property obligation that this recorded depth is the live depth (parameters included, on every path) FAILS: known finding D1-D2 with .lay witnesses; D3 (Send effect) was found here and fixed.'),
+    level_note=('Not decided: PopHandler emission on every exit path, Fiber::stack_unwind/finish_unwind, op_* handler semantics (ops unit pending), native-callback boundary.'),
+  ),
   'C12': dict(
     engine='vx',
     technique='Verus contracts on the real peephole.rs: per-rule window preconditions, semantic-equivalence postconditions over an abstract stack machine, dispatcher loop invariant',
